@@ -210,6 +210,7 @@ class Exec:
         self.total = total          # total mode: no exception edges, no forking (specs, clauses)
         self.modname = modname      # repo module whose globals are in scope (code)
         self.specmod = specmod      # python module name whose globals are in scope (specs/contracts)
+        self.clause_module = None   # contract clauses: the target's module (its sentinel objects may be named)
         self.partial_touched = False
 
     # ------------------------------------------------------------------ utils
@@ -453,7 +454,7 @@ class Exec:
 
     def try_merge(self, st, cond, ea, eb):
         """If both branches are total and effect-free, merge them with ite."""
-        sub = Exec(self.eng, self.fr, total=True, modname=self.modname, specmod=self.specmod)
+        sub = Exec(self.eng, self.fr, total=True, modname=self.modname, specmod=self.specmod); sub.clause_module = self.clause_module
         try:
             va = sub.one(st, ea)
             vb = sub.one(st, eb)
@@ -499,7 +500,7 @@ class Exec:
                 yield st1, v
                 continue
             # try to merge if the rest is total
-            sub = Exec(self.eng, self.fr, total=True, modname=self.modname, specmod=self.specmod)
+            sub = Exec(self.eng, self.fr, total=True, modname=self.modname, specmod=self.specmod); sub.clause_module = self.clause_module
             merged = None
             try:
                 rs = list(sub._boolop(st1, op, rest))
